@@ -58,6 +58,8 @@ func genCase(t *rapid.T) Case {
 	}
 	faults := []string{"closed", "corrupt-value", "corrupt-value", "race-close", "swap-failure"}
 	if c.Backend == "disk" {
+		// ("corrupt-journal" exists as a fault kind for replays, but is not drawn: LevelDB replays the journal into a table
+		// when the swapped-in store is reopened, so in every flow of the product the journal of a store in force is empty)
 		faults = append(faults, "corrupt-table", "corrupt-table")
 	}
 	c.Fault = rapid.SampledFrom(faults).Draw(t, "fault")
@@ -68,7 +70,7 @@ func genCase(t *rapid.T) Case {
 	}
 	c.N = rapid.IntRange(1, 12).Draw(t, "n")
 	c.Extra = rapid.SampledFrom([]int{0, 0, 1, 2, 3}).Draw(t, "extra")
-	if c.Fault == "corrupt-table" {
+	if c.Fault == "corrupt-table" || c.Fault == "corrupt-journal" {
 		c.N = rapid.IntRange(50, 400).Draw(t, "n_big")
 		c.Offset = rapid.IntRange(0, 1<<20).Draw(t, "offset")
 		c.Bytes = rapid.SliceOfN(rapid.Byte(), 1, 4).Draw(t, "flip")
@@ -76,7 +78,7 @@ func genCase(t *rapid.T) Case {
 	seen := map[string]bool{}
 	for len(c.Serials) < c.N {
 		s := gen.NormSerialHex(gen.DrawSerialHex(t, fmt.Sprintf("s%d", len(c.Serials))))
-		if c.Fault == "corrupt-table" {
+		if c.Fault == "corrupt-table" || c.Fault == "corrupt-journal" {
 			s = fmt.Sprintf("%s%04x", s[:min(len(s), 30)], len(c.Serials))
 		}
 		if !seen[s] {
@@ -229,7 +231,7 @@ func runCase(c Case, x *ev.Ctx) error {
 	// probes: a few listed, one unlisted
 	var listed []*x509.Certificate
 	for i, s := range c.Serials {
-		if i < 6 || c.Fault == "corrupt-table" && i%17 == 0 {
+		if i < 6 || (c.Fault == "corrupt-table" || c.Fault == "corrupt-journal") && i%7 == 0 {
 			listed = append(listed, pki.Leaf(s, cdp, nil).Cert)
 		}
 	}
@@ -306,20 +308,29 @@ func runCase(c Case, x *ev.Ctx) error {
 		if err := judge("after value damage"); err != nil {
 			return err
 		}
-	case "corrupt-table":
+	case "corrupt-table", "corrupt-journal":
 		ld := live.(*crlstore.LevelDbStore)
-		if err := ld.Db.CompactRange(util.Range{}); err != nil {
-			return fmt.Errorf("setup: compact: %v", err)
+		pattern := "*.log" // the records of a freshly swapped-in list live in the journal until LevelDB compacts it
+		if c.Fault == "corrupt-table" {
+			pattern = "*.ldb"
+			if err := ld.Db.CompactRange(util.Range{}); err != nil {
+				return fmt.Errorf("setup: compact: %v", err)
+			}
 		}
 		path := ld.LevelDBPath
 		closeAll()
-		tables, _ := filepath.Glob(filepath.Join(path, "*.ldb"))
+		tables, _ := filepath.Glob(filepath.Join(path, pattern))
 		if len(tables) == 0 {
 			x.Class("no-table-file")
 			return nil
 		}
 		sort.Strings(tables)
 		b, _ := os.ReadFile(tables[0])
+		if len(b) == 0 {
+			// (journal) LevelDB replayed the journal into a table when the swapped-in store was reopened: nothing to damage
+			x.Class("file-empty/" + c.Fault)
+			return nil
+		}
 		off := c.Offset % len(b)
 		for i, d := range c.Bytes {
 			if off+i < len(b) {
@@ -340,7 +351,7 @@ func runCase(c Case, x *ev.Ctx) error {
 		repo.Factory = capf2
 		if _, err := repo.AddCRL(loc, chains); err != nil {
 			x.Class("reopen-failed")
-			x.NonTrivial(fmt.Sprintf("table|reopen-failed|%d", c.N/50))
+			x.NonTrivial(fmt.Sprintf("%s|reopen-failed|%d", c.Fault, c.N/50))
 			return nil // clean error at open time: fail closed
 		}
 		ld2 := realStore(capf2.live[0]).(*crlstore.LevelDbStore)
@@ -356,7 +367,7 @@ func runCase(c Case, x *ev.Ctx) error {
 		if rawErr {
 			x.Class("raw-iteration-error")
 		}
-		if err := judge("after table corruption"); err != nil {
+		if err := judge("after " + c.Fault + " and restart"); err != nil {
 			return err
 		}
 	case "swap-failure":
